@@ -58,3 +58,46 @@ def _signals(src):
 
 
 register("srv_map_signal", span_custom(S, _signals))
+
+
+# ---- waker queue: the critical sections -----------------------------------------------------------------
+# `WakerQueue::wake` pushes under the queue's lock; `Accept::handle_waker` pops under a guard taken inside the loop and, on
+# an empty pop, resets the queue UNDER THE SAME GUARD (no unlock between "found empty" and "replaced"): that atomicity is
+# what lets the model treat "pop returned None" as one step (Model/WakerQueue.lean: `lossless`).
+def _facts(facts, what, frag):
+    bad = [n for n, ok in facts if not ok]
+    if bad:
+        raise Fail("%s: %s no longer hold(s) syntactically" % (what, ", ".join(bad)))
+    return "\n".join("def %s : Bool := true" % n for n, _ in facts), frag
+
+
+def _waker_drain(src):
+    m = re.search(r"fn handle_waker\b.*?\n    \}\n", src, re.S)
+    if not m:
+        raise Fail("fn handle_waker not found")
+    body = m.group(0)
+    sq = re.sub(r"\s+", "", body)
+    none_arm = re.search(r"None=>\{((?:(?!=>).)*?)\}\}\}\}$", sq)
+    if not none_arm:
+        raise Fail("handle_waker: the `None => { … }` arm (queue drained) is not the last arm of the match")
+    arm = none_arm.group(1)
+    return _facts([
+        ("wqGuardPerIteration", "loop{" in sq and "letmutguard=self.waker_queue.guard();" in sq.split("loop{", 1)[1]),
+        ("wqPopUnderGuard", "matchguard.pop_front(){" in sq),
+        ("wqDrainedResetsUnderSameGuard", arm.startswith("WakerQueue::reset(&mutguard);") and "drop(guard)" not in arm and ".guard()" not in arm),
+        ("wqDrainedReturns", arm.endswith("returnfalse;")),
+    ], "waker queue drain (Accept::handle_waker)", body)
+
+
+def _waker_wake(src):
+    sq = re.sub(r"\s+", "", src)
+    push = '.lock().expect("FailedtolockWakerQueue").push_back(interest);'
+    return _facts([
+        ("wqWakePushesUnderLock", ("queue" + push) in sq),
+        ("wqWakeRingsAfterPush", push in sq and sq.find("waker.wake()", sq.find(push)) != -1),
+        ("wqResetIsSwapWithEmpty", "fnreset(queue:&mutVecDeque<WakerInterest>){std::mem::swap(&mutVecDeque::<WakerInterest>::with_capacity(16),queue);}" in sq),
+    ], "waker queue (WakerQueue::wake / reset)", src)
+
+
+register("srv_waker_drain", span_custom(A, _waker_drain))
+register("srv_waker_wake", span_custom("actix-server/src/waker_queue.rs", _waker_wake))
